@@ -15,6 +15,12 @@
 (*       "code"  paragraph in style CodeBlock                              *)
 (*       "li"    list item, a = "bul" | "num", n = indentation level       *)
 (*       "empty" paragraph without runs text                               *)
+(*   a heading, quote or code paragraph may carry numbering properties too *)
+(*   (a = "bul" | "num": Word's numbered headings); the style decides what *)
+(*   the paragraph is, so it is exported as the heading / quote / code it  *)
+(*   is.  Any of them may be blank (no run, or runs without a word): like  *)
+(*   the empty paragraph it shows nothing, and it leaves no trace in what  *)
+(*   the blocks after it look like.                                        *)
 (*       "tbl"   table, rows = Seq(Seq(text class)) (first row = header)   *)
 (*   runs = Seq([f |-> SUBSET {"b","i","s","c"}, c |-> text class])        *)
 (*                                                                         *)
@@ -81,6 +87,24 @@ Toks(c) ==
     [] c = "dash"   -> <<"c:-", "sp", "w1">>
     [] c = "dash1"  -> <<"w1", "sp", "c:-", "sp", "w2">>
     [] c = "fence"  -> <<"c:`", "c:`", "c:`">>
+    \* the other list markers in front of a word, and a number of two digits
+    [] c = "plus"   -> <<"c:+", "sp", "w1">>
+    [] c = "numpar" -> <<"c:3", "c:)", "sp", "w1">>
+    [] c = "num2"   -> <<"c:1", "c:2", "c:.", "sp", "w1">>
+    \* the whole text is what Markdown reads as a block marker (nothing follows it, or white space only)
+    [] c = "m-dash" -> <<"c:-">>
+    [] c = "m-plus" -> <<"c:+">>
+    [] c = "m-star" -> <<"c:*">>
+    [] c = "m-num"  -> <<"c:1", "c:2", "c:.">>
+    [] c = "m-par"  -> <<"c:3", "c:)">>
+    [] c = "m-hash" -> <<"c:#">>
+    [] c = "m-gt"   -> <<"c:>">>
+    [] c = "m-rule" -> <<"c:-", "c:-", "c:-">>
+    [] c = "m-eq"   -> <<"c:=", "c:=", "c:=">>
+    [] c = "m-dashsp" -> <<"c:-", "sp">>
+    \* ... and what looks like one but is none
+    [] c = "dashw"  -> <<"c:-", "w1">>
+    [] c = "decimal" -> <<"c:1", "c:.", "c:5">>
     \* white space
     [] c = "lead"   -> <<"sp", "w2">>
     [] c = "trail"  -> <<"w2", "sp">>
@@ -154,6 +178,18 @@ Intra(b) == LET rs == NonEmptyRuns(b)
                      y == Toks(rs[i + 1].c)
                  IN x[Len(x)] \notin Ws /\ y[1] \notin Ws /\ ("i" \in rs[i].f) # ("i" \in rs[i + 1].f)
 
+\* a bold / italic / struck-through run begins or ends with a punctuation character and touches a word of the
+\* neighbouring run there (CommonMark: a delimiter between a letter and punctuation neither opens nor closes emphasis)
+PunctTok(t) == t \in {"c:" \o x : x \in {"*", "_", "#", "|", "`", ">", "<", "[", "]", "(", ")", "\\", "&", ";", "~", ".", "-", "+", "="}}
+WordTok(t) == t \notin Ws /\ ~PunctTok(t)
+JoinPunct(b) == LET rs == NonEmptyRuns(b)
+                    em(r) == r.f \cap {"b", "i", "s"} # {} /\ "c" \notin r.f
+                IN \E i \in 1..(Len(rs) - 1) :
+                     LET x == Toks(rs[i].c)
+                         y == Toks(rs[i + 1].c)
+                     IN \/ em(rs[i + 1]) /\ PunctTok(y[1]) /\ WordTok(x[Len(x)])
+                        \/ em(rs[i]) /\ PunctTok(x[Len(x)]) /\ WordTok(y[1])
+
 Classes(b, o) ==
   IF b.k = "tbl" THEN
     {"tbl"} \cup ({"t:" \o b.rows[r][c] : r \in 1..Len(b.rows), c \in 1..Len(b.rows[1])} \ {"t:" \o p : p \in PlainClasses})
@@ -166,6 +202,9 @@ Classes(b, o) ==
     \cup (IF b.k = "h" /\ b.n <= 2 /\ o.setext THEN {"opt:setext"} ELSE {})
     \cup (IF b.k = "li" /\ b.a = "num" THEN {"li:num"} ELSE {})
     \cup (IF b.k = "li" /\ b.n > 0 THEN {"li:nest"} ELSE {})
+    \* a heading / quote / code paragraph that carries numbering properties; a styled paragraph without a word
+    \cup (IF b.k \in {"h", "q", "code"} /\ b.a # "" THEN {"numpr"} ELSE {})
+    \cup (IF b.k \in {"h", "q", "code", "li"} /\ ~Visible(b) THEN {"blank-" \o b.k} ELSE {})
     \cup ({"t:" \o b.runs[i].c : i \in 1..Len(b.runs)} \ {"t:" \o p : p \in PlainClasses})
     \cup {"f:" \o FlagName(b.runs[i].f) : i \in {j \in 1..Len(b.runs) : b.runs[j].f # {} /\ Toks(b.runs[j].c) # <<>>}}
     \* derived: some text is formatted; a code-font run carries a second format; a formatted run begins or ends with white space
@@ -177,9 +216,15 @@ Classes(b, o) ==
     \cup (IF Tight(b) THEN {"join:fmt"} ELSE {})
     \cup (IF \E i \in 1..Len(b.runs) : Cardinality(b.runs[i].f \ {"c"}) > 1 /\ Toks(b.runs[i].c) # <<>> THEN {"fmt:multi"} ELSE {})
     \cup (IF SNest(b) THEN {"join:strike+"} ELSE {})
+    \cup (IF JoinPunct(b) THEN {"join:punct"} ELSE {})
     \cup (IF o.emph = "_" /\ Intra(b) THEN {"opt:us-intraword"} ELSE {})
     \cup (IF o.wrap > 0 /\ b.k = "p" THEN {"opt:wrap"} ELSE {})
     \cup (IF o.meta THEN {"opt:meta"} ELSE {})
+
+\* what lies before block i of the body and shows nothing itself: a blank heading / quote / code / list paragraph
+\* (the exporter walks the body with a memory - in a list, in a code block - that such a paragraph must not leave set)
+HistCls(B, i) == {"after:blank-" \o B[j].k : j \in {x \in 1..(i - 1) : B[x].k \in {"h", "q", "code", "li"} /\ ~Visible(B[x])}}
+ClassesAt(B, i, o) == Classes(B[i], o) \cup HistCls(B, i)
 
 KC(k) == IF k \in {"tbl", "weak"} THEN "tbl" ELSE "par"
 VisIdx(B) == {i \in 1..Len(B) : Visible(B[i])}
@@ -188,9 +233,11 @@ OrderCls(B) == {KC(B[p[1]].k) \o "<" \o KC(B[p[2]].k) : p \in {q \in VisIdx(B) \
 LiThen(B) == IF \E p \in VisIdx(B) \X VisIdx(B) : p[1] < p[2] /\ B[p[1]].k = "li" /\ B[p[2]].k # "li" THEN {"li<other"} ELSE {}
 DocCls(B) == OrderCls(B) \cup LiThen(B)
 \* for stability every block counts, also those that show nothing
-EveryCls(B, o) == UNION {Classes(B[i], o) : i \in 1..Len(B)} \cup DocCls(B)
+EveryCls(B, o) == UNION {ClassesAt(B, i, o) : i \in 1..Len(B)} \cup DocCls(B)
 AdjCls(B, lo, hi) == {"adj:" \o B[i].k \o ">" \o B[i + 1].k : i \in {j \in lo..(hi - 1) : j \in 1..(Len(B) - 1)}}
-AllCls(B, o) == UNION {Classes(B[i], o) : i \in VisIdx(B)}
+\* the blank styled paragraphs among blocks lo..hi
+BlankIn(B, lo, hi) == {"blank-" \o B[i].k : i \in {j \in lo..hi : j \in 1..Len(B) /\ B[j].k \in {"h", "q", "code", "li"} /\ ~Visible(B[j])}}
+AllCls(B, o) == UNION {ClassesAt(B, i, o) : i \in VisIdx(B)}
 
 \* ---- judging an observed projection ---------------------------------------------------
 \* Observed block: [k, lvl, toks |-> Seq([t, f |-> Seq(STRING)]), rows |-> Seq(Seq([toks]))]
@@ -276,7 +323,7 @@ SufN(exp, obs, pre, n, fl) ==
   ELSE SufN(exp, obs, pre, n + 1, fl)
 
 PairWits(B, o, es, os, fl) ==
-  UNION {{[fld |-> f, ks |-> Classes(B[es[i].src], o)] : f \in Match(es[i], os[i], fl)} : i \in 1..Len(es)}
+  UNION {{[fld |-> f, ks |-> ClassesAt(B, es[i].src, o)] : f \in Match(es[i], os[i], fl)} : i \in 1..Len(es)}
 
 \* Witnesses of one projection obs0 of body B exported under o:  set of [fld, ks]
 \* ph = "exp" (flags demanded) | "fix" (the body converted back: block sequence and text)
@@ -305,7 +352,7 @@ Judge(B, o, obs0, ph) ==
         omid == SubSeq(obs, pre + 1, Len(obs) - suf)
         lo == IF emid = <<>> THEN (IF pre > 0 THEN exp[pre].src ELSE 1) ELSE emid[1].src
         hi == IF emid = <<>> THEN (IF suf > 0 THEN exp[Len(exp) - suf + 1].src ELSE Len(B)) ELSE emid[Len(emid)].src
-        ks == UNION {Classes(B[emid[i].src], o) : i \in 1..Len(emid)} \cup AdjCls(B, lo, hi)
+        ks == UNION {ClassesAt(B, emid[i].src, o) : i \in 1..Len(emid)} \cup AdjCls(B, lo, hi) \cup BlankIn(B, lo, hi)
               \cup (IF o.meta THEN {"opt:meta"} ELSE {}) \cup DocCls(B)
     IN {[fld |-> f, ks |-> ks] : f \in {"blocks"} \cup WordDiff(AllEWords(emid), AllOWords(omid))}
 
